@@ -24,6 +24,7 @@ ValuesOf(k) ==
     [] k = "all"   -> { <<>>, <<"a">>, <<"a", "/", "b">>, <<"a", "SP", "QM">> }
     [] k = "rest1" -> { <<"a">>, <<"a", "/", "b", "/", "1">> }
     [] k = "ab"    -> { <<"a">>, <<"b", "a">> }
+    [] k = "ab1"   -> { <<"a">>, <<"b", "1">>, <<"a", "b", "1">> }      \* (?:a|b)(?:(?:1|b)*): values that use the part behind the first group
 
 \* all assignments of a pattern without optional parts: sequences of <<name, value>> in order of appearance
 RECURSIVE AssignSeq(_, _)
